@@ -110,6 +110,13 @@ func (r *HTMLRenderer) AppendBlock(dst []byte, block *RootBlock) []byte {
 				return state.preBlock(block.Source, c)
 			}
 			if i := c.Node().Inline(); i != nil {
+				if i.Kind() == SoftLineBreakKind && c.ParentBlock().Kind().IsCode() {
+					// The line ending that the parser supplies
+					// for a code block's last line at the end of input
+					// is code, not a soft line break.
+					state.dst = append(state.dst, '\n')
+					return false
+				}
 				return state.preInline(block.Source, i)
 			}
 			return true
